@@ -87,6 +87,8 @@ def gen_case(rng):
     case["strategy"] = ds.draw_strategy(rng)
     if case.get("timeout") is not None:
         case["strategy"].pop("p_jump", None)      # the timeout oracle bounds simulated time (see C16)
+        if case["strategy"].get("novel"):
+            case["strategy"]["novel_sleep"] = False
     case["sched_seed"] = rng.randrange(1 << 31)
     return case
 
